@@ -279,7 +279,20 @@ type yPodLister struct {
 
 func (l yPodLister) Pods(ns string) corelister.PodNamespaceLister {
 	l.w.yield("lister.pods")
-	return l.PodLister.Pods(ns)
+	return yPodNsLister{l.PodLister.Pods(ns), l.w}
+}
+
+// yPodNsLister adds a second yield point right AFTER a pod was read from the cache: what the caller does next (typically taking
+// the pod lock) is then a separate step, so that "checked the cache, then another request ran, then acted" is a schedule.
+type yPodNsLister struct {
+	corelister.PodNamespaceLister
+	w *World
+}
+
+func (l yPodNsLister) Get(name string) (*corev1.Pod, error) {
+	p, err := l.PodNamespaceLister.Get(name)
+	l.w.yield("lister.pods.read")
+	return p, err
 }
 
 type yStsLister struct {
